@@ -149,10 +149,13 @@ class PacketVar(MemoryDesc):
             super().__set__(device, value)
         else:
             start = self._start(device)
+            assign = device.sync_group.pdo_assign
             if isinstance(self.size, int):
                 mask = 1 << self.size
                 def set(instance, value):
-                    assert instance is device
+                    if self._rebound(instance, device, assign):
+                        del self.set
+                        return self.set(instance, value)
                     data = device.sync_group.current_data
                     if value:
                         data[start] |= mask
@@ -162,7 +165,9 @@ class PacketVar(MemoryDesc):
                 mystruct = struct.Struct('<' + self.size)
                 s = slice(start, start + mystruct.size)
                 def set(instance, value):
-                    assert instance is device
+                    if self._rebound(instance, device, assign):
+                        del self.set
+                        return self.set(instance, value)
                     data = device.sync_group.current_data
                     data[s] = mystruct.pack(value)
             self.set = set
@@ -173,20 +178,32 @@ class PacketVar(MemoryDesc):
             return super().__get__(device, None)
         else:
             start = self._start(device)
+            assign = device.sync_group.pdo_assign
             if isinstance(self.size, int):
                 mask = 1 << self.size
                 def get(instance):
-                    assert instance is device
+                    if self._rebound(instance, device, assign):
+                        del self.get
+                        return self.get(instance)
                     data = instance.sync_group.current_data
                     return bool(data[start] & mask)
             else:
                 mystruct = struct.Struct("<" + self.size)
                 def get(instance):
-                    assert instance is device
+                    if self._rebound(instance, device, assign):
+                        del self.get
+                        return self.get(instance)
                     data = instance.sync_group.current_data
                     return mystruct.unpack_from(data, start)[0]
             self.get = get
             return get(device)
+
+    @staticmethod
+    def _rebound(instance, device, assign):
+        """is a cached accessor used by another device or after the
+        sync group allocated its packet anew?"""
+        return (instance is not device
+                or instance.sync_group.pdo_assign is not assign)
 
     def _start(self, device):
         return device.sync_group.pdo_assign[self.terminal][self.sm] \
